@@ -1,13 +1,18 @@
 #!/bin/sh
 # apply each /verif/mutants/<PID>_*.patch to a scratch copy of /repo (never /repo) and run the property's quick check on it;
-# expected: exit 1 (VIOLATION).  Usage: driver/run_mutants.sh [patch ...]
+# expected: exit 1 (VIOLATION).  Usage: driver/run_mutants.sh [patch[:only-substring] ...]
 cd "$(dirname "$0")/.."
 [ $# -eq 0 ] && set -- mutants/*.patch
-for m in "$@"; do
+for arg in "$@"; do
+  m=${arg%%:*}; only=""; case "$arg" in *:*) only=${arg##*:};; esac
   name=$(basename "$m" .patch); pid=${name%%_*}
   s=/var/tmp/mutrun.$name; rm -rf $s; rsync -a --exclude target --exclude .git /repo/ $s/
   if ! (cd $s && patch -p1 -s < /verif/$m); then echo "$name PATCH-FAILED"; rm -rf $s; continue; fi
-  VERIF_NO_REPLAY=1 ./check $pid --repo $s > /var/tmp/mutrun.$name.log 2>&1; rc=$?
+  if [ -n "$only" ]; then
+    VERIF_NO_REPLAY=1 ./check $pid --repo $s --only "$only" > /var/tmp/mutrun.$name.log 2>&1; rc=$?
+  else
+    VERIF_NO_REPLAY=1 ./check $pid --repo $s > /var/tmp/mutrun.$name.log 2>&1; rc=$?
+  fi
   echo "$name rc=$rc $(grep -h 'failed obligation' /var/tmp/mutrun.$name.log | sed 's/ -- .*//' | sort -u | tr '\n' ' ')"
   rm -rf $s
 done
